@@ -62,6 +62,11 @@ type Party struct {
 	Once    bool   `json:"once,omitempty"`
 	// Defaults are indices into World.Args given to NewFunc as default options.
 	Defaults []int `json:"defaults,omitempty"`
+	// SharePrefixOf (1-based party index, 0 = none): this party's default
+	// options are a prefix of that party's, and are passed to NewFunc as a
+	// sub-slice of the same backing array (how callers carve option lists out
+	// of one slice).
+	SharePrefixOf int `json:"share_prefix_of,omitempty"`
 }
 
 // Arg kinds.
@@ -123,6 +128,9 @@ type Op struct {
 	// Twin is a stable id of the operation across a history and its twin (the
 	// same history with some operations removed); 0 = none.
 	Twin int `json:"twin,omitempty"`
+	// ZeroInputs (callredef): hand the zero value of each declared input type
+	// to the redefined function instead of a fresh token.
+	ZeroInputs bool `json:"zero_inputs,omitempty"`
 }
 
 // Fault is one entry of the fault plan.
